@@ -32,13 +32,28 @@ def r1(ctx):
     led = []  # (hop, offset, ok, loc, text)
     # hop 1: decoder block_id = PS (+0)
     d = ctx.func("whatshap.vcf.VcfReader._extract_GT_PS_phase")
-    b = util.single_def(d.node, "block_id")
-    ok = b is not None and isinstance(b, ast.Call) and u(b.func).endswith(".get") and u(b.args[0]) == "'PS'"
-    led.append(("vcf PS -> block_id", 0, ok, d.loc(), u(b) if b is not None else "?"))
+    # what the decoder returns as block id (path summaries, temporaries substituted): call.get("PS", ...) verbatim
+    from sa import pathfx
+
+    bids = []
+    for ps_ in pathfx.summaries(ctx.cfg(d), value_only=True):
+        for r_ in ps_.returns():
+            v_ = r_[1]
+            if isinstance(v_, ast.Call) and u(v_.func) == "VariantCallPhase":
+                bids += [k.value for k in v_.keywords if k.arg == "block_id"]
+    ok = bool(bids) and all(isinstance(b, ast.Call) and u(b.func).endswith(".get") and b.args and u(b.args[0]) == "'PS'" for b in bids)
+    led.append(("vcf PS -> block_id", 0, ok, d.loc(), u(bids[0]) if bids else "?"))
     # hop 2: haplotag phase_info (+0)
     g = ctx.func(HT + ".get_variant_information")
-    pi = util.single_def(g.node, "phase_info")
-    ok = pi is not None and isinstance(pi, ast.Tuple) and u(pi.elts[0]) == "int(phase.block_id)"
+    # what is stored per position in the returned map: (int(<phase>.block_id), <phase>.phase), by subscript store or dict comprehension
+    rets_g = [n for n in walk_function(g.node) if isinstance(n, ast.Return) and isinstance(n.value, ast.Tuple) and n.value.elts]
+    mapname = u(rets_g[0].value.elts[0]) if rets_g else "vpos_to_phase_info"
+    stored = [util.resolve_locals(g.node, s_.value) for s_ in util.store_sites(g.node) if s_.kind == "subscript" and u(s_.target.value) == mapname and s_.value is not None]
+    md = util.single_def(g.node, mapname)
+    if isinstance(md, ast.DictComp):
+        stored.append(md.value)
+    pi = stored[0] if len(stored) == 1 else None
+    ok = pi is not None and isinstance(pi, ast.Tuple) and len(pi.elts) == 2 and isinstance(pi.elts[0], ast.Call) and u(pi.elts[0].func) == "int" and len(pi.elts[0].args) == 1 and isinstance(pi.elts[0].args[0], ast.Attribute) and pi.elts[0].args[0].attr == "block_id"
     led.append(("block_id -> phase info", 0, ok, g.loc(), u(pi) if pi is not None else "?"))
     # hop 3: PS tag value (+0), HP tag value (+1)
     a = ctx.func(HT + ".attempt_add_phase_information")
@@ -298,4 +313,6 @@ RULES = [
     ("C17.R3", "already phased calls are carried, not re-derived", r3),
     ("C17.R4", "tags come from best agreement within the linked-read cutoff (C10.R4)", r4),
 ]
-FLOORS = {"C17.R1": 11, "C17.R2": 6, "C17.R3": 4, "C17.R4": 15}
+# instance floors: about 60% of the instances confirmed by hand on the reference tree -- a rule that suddenly matches far fewer
+# sites fails the run (exit 2); a clean-up that merges two sites into one does not
+FLOORS = {"C17.R1": 6, "C17.R2": 3, "C17.R3": 2, "C17.R4": 9}
